@@ -51,10 +51,16 @@ def run(repo, rep, tier):
                       "are never mutated through instances")
     rep.rule("R14.5", "lock discipline of the module loader")
     _effects(repo, rep)
+    _caller_objects(repo, rep)
     _preamble(repo, rep)
     _identifiers(repo, rep)
     _publish(repo, rep)
     _locks(repo, rep)
+    # nothing of an earlier version of the template is visible after it was
+    # compiled again (C16 owns the rule)
+    from . import c16
+    L.borrow(repo, rep, "R14.4", "C16", c16._retire,
+             ("retire-filter", "stale-entry-points"), minimum=2)
     L.state_rule(repo, rep)
 
 
@@ -181,6 +187,119 @@ def _effects(repo, rep):
     rep.ok("R14.1", sc.qualname, "Scope(__kw) copies the keyword dictionary "
                                  "(dict constructor): the caller's dict is "
                                  "not the scope")
+
+
+def render_helpers(repo):
+    """The functions of the package that generated code calls at render time
+    with objects of the caller: whatever is handed to ``Symbol(...)`` or to a
+    slot of a code fragment by name, the default translation functions, and
+    the methods of the per-render helper classes.  -> {qualname: Func}"""
+    out = {}
+    names = set()
+    for m in repo.modules.values():
+        for n in ast.walk(m.tree):
+            if isinstance(n, ast.Call) and src(n.func).endswith("Symbol") \
+                    and n.args and isinstance(n.args[0], ast.Name):
+                names.add((m, n.args[0].id))
+            elif isinstance(n, ast.Call) and src(n.func) in (
+                    "template",) or (isinstance(n, ast.Call) and src(
+                        n.func).startswith("emit_")):
+                for k in n.keywords:
+                    if isinstance(k.value, ast.Name):
+                        names.add((m, k.value.id))
+    for m, nm in names:
+        f = repo.resolve_func(m, nm) if hasattr(repo, "resolve_func") else None
+        if f is None:
+            for q, fn in repo.funcs.items():
+                if fn.cls is None and fn.name == nm and (
+                        fn.module is m or nm in getattr(m, "imports", {})):
+                    f = fn
+        if f is not None:
+            out[f.qualname] = f
+    for q in ("chameleon.i18n.simple_translate", "chameleon.i18n.fast_translate",
+              "chameleon.utils.lookup_attr", "chameleon.utils.resolve_dotted"):
+        if q in repo.funcs:
+            out[q] = repo.funcs[q]
+    for cq in ("chameleon.tal.RepeatDict", "chameleon.tal.RepeatItem",
+               "chameleon.tal.ErrorInfo", "chameleon.utils.Scope"):
+        try:
+            c = repo.cls(cq)
+        except AnalysisError:
+            continue
+        for mn, mf in c.methods.items():
+            out[mf.qualname] = mf
+    return out
+
+
+def _caller_objects(repo, rep):
+    """'the argument objects passed by the caller are left unmodified': a
+    render-time helper calls no mutating method on, and stores nothing into,
+    an object it was handed (a parameter other than self, or something read
+    off one: getattr(p, ...), p.attr, p[...])"""
+    helpers = render_helpers(repo)
+    if len(helpers) < 12:
+        raise AnalysisError("render-time helpers vanished (%d)" % len(helpers))
+    for q, f in sorted(helpers.items()):
+        a = f.node.args
+        params = [x.arg for x in a.posonlyargs + a.args + a.kwonlyargs]
+        if f.cls is not None and params and not any(
+                src(d) == "staticmethod" for d in f.node.decorator_list):
+            params = params[1:]
+        owned = set(params)
+        for _ in range(3):
+            for n in ast.walk(f.node):
+                if isinstance(n, ast.Assign) and len(n.targets) == 1 and \
+                        isinstance(n.targets[0], ast.Name):
+                    v = n.value
+                    root = None
+                    if isinstance(v, ast.Call) and src(v.func) == "getattr" \
+                            and v.args and isinstance(v.args[0], ast.Name):
+                        root = v.args[0].id
+                    elif isinstance(v, (ast.Attribute, ast.Subscript)) and \
+                            isinstance(v.value, ast.Name):
+                        root = v.value.id
+                    elif isinstance(v, ast.Name):
+                        root = v.id
+                    if root in owned:
+                        owned.add(n.targets[0].id)
+        # a parameter that is re-bound to a fresh object first is the
+        # function's own (x = list(x), x = dict(x), x = x.copy())
+        fresh = set()
+        for n in ast.walk(f.node):
+            if isinstance(n, ast.Assign) and len(n.targets) == 1 and \
+                    isinstance(n.targets[0], ast.Name) and \
+                    n.targets[0].id in owned and isinstance(
+                        n.value, ast.Call) and (
+                            src(n.value.func) in ("list", "dict", "set",
+                                                  "tuple", "sorted") or (
+                                isinstance(n.value.func, ast.Attribute) and
+                                n.value.func.attr == "copy")):
+                fresh.add(n.targets[0].id)
+        bad = []
+        for n in ast.walk(f.node):
+            if isinstance(n, ast.Call) and isinstance(
+                    n.func, ast.Attribute) and n.func.attr in MUTATORS and \
+                    isinstance(n.func.value, ast.Name) and \
+                    n.func.value.id in owned - fresh:
+                bad.append("%s (line %d)" % (src(n)[:50], n.lineno))
+            elif isinstance(n, (ast.Assign, ast.AugAssign)):
+                for t in (n.targets if isinstance(n, ast.Assign)
+                          else [n.target]):
+                    if isinstance(t, (ast.Subscript, ast.Attribute)) and \
+                            isinstance(t.value, ast.Name) and \
+                            t.value.id in owned - fresh:
+                        bad.append("store %s (line %d)" % (src(t), n.lineno))
+            elif isinstance(n, ast.Delete):
+                for t in n.targets:
+                    if isinstance(t, (ast.Subscript, ast.Attribute)) and \
+                            isinstance(t.value, ast.Name) and \
+                            t.value.id in owned - fresh:
+                        bad.append("del %s (line %d)" % (src(t), n.lineno))
+        rep.check(not bad, "R14.1", f.qualname, "%s (called by generated "
+                  "code) leaves the objects it is handed unmodified" % f.name,
+                  construct="caller-object:" + (
+                      bad[0].split(" (line")[0] if bad else ""),
+                  where=L.where(f), detail="; ".join(bad))
 
 
 IMMUTABLE_CALLS = ("intern", "object", "re.compile", "functools.partial")
@@ -434,9 +553,11 @@ def _identifiers(repo, rep):
               construct="mangle", where=L.where(g))
 
 
-def _key_transforms(expr, argnames):
+def _key_transforms(expr, argnames, mapping=None):
     """parts of a cache-key expression that are more than a regrouping of
-    the argument objects -> [source text]"""
+    the argument objects -> [source text]; ``mapping`` names the keyword
+    dictionary: it enters the key through .items() (iterating it gives the
+    names without the values)"""
     bad = []
     GROUP = ("tuple", "sorted", "frozenset", "list")
 
@@ -451,6 +572,8 @@ def _key_transforms(expr, argnames):
 
     def rec(e):
         if isinstance(e, ast.Name):
+            if mapping is not None and e.id == mapping:
+                bad.append("%s without .items(): the names only" % e.id)
             return
         if isinstance(e, ast.BinOp) and isinstance(e.op, ast.Add):
             rec(e.left)
@@ -630,7 +753,7 @@ def _publish(repo, rep):
         # tuple / sorted / frozenset / + around them.  (A class that enters
         # the key by its name, repr or type is shared by every other class
         # of that name.)
-        changed = _key_transforms(key_expr, {va, kw}) \
+        changed = _key_transforms(key_expr, {va, kw}, kw) \
             if key_expr is not None else ["no key"]
         if changed:
             okk = False
